@@ -931,7 +931,9 @@ def oracle_c01(tr, sc):
                 dd = float(np.max(np.abs(x0 - xe))) if x0.size else 0.0
                 sc_ = float(np.max(np.abs(xe))) if xe.size else 0.0
                 tol0 = restol * (sc_ if rtype0.endswith('rel') else 1.0)
-                if dd > 10 * tol0 + 64 * EPS * sc_:
+                # collocation-update multi-step configurations (finding F09): the predecessor's reported end value lags its sent one by
+                # the last change of its own initial value, which its residual bounds only up to cancellation (15 x tol observed): 1e3 x tol
+                if dd > (1e3 if lag_cfg else 10) * tol0 + 64 * EPS * sc_:
                     V('start_not_previous_end', 'it_check', f"step at t={a['t']!r} (block {a['block']} slot {a['slot']}) and its predecessor both report convergence, but it starts {dd:.3e} away from the predecessor's end value (restol {restol:.3e})")
         prev, prev_conv = a, rec['reported'] <= restol
         uref, kend, kappa, Un, normA = sh.reference_step(a['u0_post'], a['t'], a['dt'], coll_update)
